@@ -31,8 +31,8 @@ RULE = ("Hypothesis-drawn cases: hops 1..3, 0..3 manipulations of the n-th plain
         "identifier / key / auth / candidates / circuit id; ephemeral substitution with valid auth; swap with the created "
         "of a concurrently built circuit; replay of an earlier created after a retry; duplicate; delay past "
         "next_hop_timeout; drop), optional second concurrent circuit, next_hop_timeout 10 s (default) or 3 s. Non-trivial = a manipulated created/extended reaches "
-        "the originator (or its relay) while a retry cache for that circuit is outstanding; distinct = (hops, manipulation "
-        "types and targets, outcome).")
+        "the originator (or its relay) while a retry cache for that circuit is outstanding; distinct = the complete case "
+        "(hops, seed, manipulations with arguments, second circuit, next_hop_timeout).")
 ASSUMPTIONS = [
     "X25519, HMAC, HKDF and AEAD of ipv8_rust_tunnels are trusted; the reference derivation uses the same primitives "
     "on independently chosen inputs (x from the hop object, Y from the wire, B from the selected node's real key)",
@@ -339,7 +339,7 @@ def run_case(ctx: Ctx | None, case: dict) -> None:
         vloop.run(r.main)
     finally:
         if ctx is not None and r.info["desc"] is not None:
-            ctx.case(r.info["desc"], r.info["nontrivial"], cls=r.info["cls"], sample=case)
+            ctx.case(case, r.info["nontrivial"], cls=r.info["cls"], sample=case)
 
 
 def _strategy():
